@@ -18,6 +18,12 @@ def cfgs_for(ctx, big=False):
            configs.C("ast-all-fenced", renderer="ast", plugins=configs.PLUGINS, directives="fenced"),
            configs.C("ast-all-rst", renderer="ast", plugins=configs.PLUGINS, directives="rst"),
            configs.C("ast-hardwrap", renderer="ast", hard_wrap=True, plugins=["table", "footnotes", "task_lists", "def_list"])]
+    # the nesting limit configured both ways (attribute of the converter's block parser; constructor argument), several values
+    for lim in ((2, 3) if not big else (1, 2, 3, 4, 8)):
+        out.append(configs.C("ast-limit%d" % lim, renderer="ast", max_nested=lim))
+        out.append(configs.C("ast-limit%d-plugins" % lim, renderer="ast", plugins=["spoiler", "def_list", "footnotes", "task_lists"], max_nested=lim))
+        out.append(configs.C("ast-limit%d-ctor" % lim, renderer="ast", max_nested=lim, max_nested_how="ctor"))
+        out.append(configs.C("ast-limit%d-fenced" % lim, renderer="ast", directives="fenced", max_nested=lim))
     for _ in range(3 if not big else 25):
         c = configs.random_cfg(ctx.rng, html_only=True)
         c["renderer"] = "ast"; c["name"] = "ast-rand"
